@@ -409,7 +409,8 @@ static void do_realloc(const Op& op) {
   void* q = nullptr; int rc = 0;
   // accounting ("the old block is released exactly when a different pointer is returned"): with one thread and nothing that moves pages between
   // heaps, the number of used blocks over this thread's heaps is the same before and after a moving re-allocation
-  const bool count_ok = old != nullptr && sched_nthreads() <= 1 && old->prog == T->prog && old->heap >= 0 && old->orphan_kind == 0 && !H.forced_abandon_possible && mi_option_get(mi_option_target_segments_per_thread) <= 0;
+  bool count_ok = old != nullptr && sched_nthreads() <= 1 && old->prog == T->prog && old->heap >= 0 && old->orphan_kind == 0 && !H.forced_abandon_possible && mi_option_get(mi_option_target_segments_per_thread) <= 0;
+  if (count_ok) for (auto& kv : H.live) if (kv.second->heap < 0) { count_ok = false; break; }      // pages abandoned by a deleted heap may be adopted (with their blocks) by the allocation inside the call
   auto used_total = [&]() { size_t n = 0; for (size_t i = 0; i < H.heaps.size(); i++) { MHeap& m = H.heaps[i]; if (!m.alive || m.prog != T->prog) continue; mi_heap_t* hh = (m.kind == HK_BACKING ? heap_ptr((int)i) : m.h); if (hh) n += heap_used_sum(hh, nullptr); } return n; };
   const size_t used_before = count_ok ? used_total() : 0;
   const bool fail_ok = null_allowed(op);
